@@ -11,7 +11,12 @@ What the harness replaces (configuration, not code under test): the module const
 (DEFAULT_NEXT_POINTS_ES/GB_OPTIMIZER_INFO: multistarts, pretest / near-best sample counts, DE parameters set to dyadic
 values), the iteration-table lookup find_optimizer_maxiter, the block size REJECTION_SAMPLING_BLOCK_SIZE, and the domain
 object's quasi-random generator (a cyclic pool, as in C07's harness).  Exact runs use unconstrained domains (the constrained
-restriction divides); constrained domains are run unscripted and decided by the specification with tolerance 1e-9."""
+restriction divides); constrained domains are run unscripted and decided by the specification with tolerance 1e-9.
+
+The scripted acquisition function is PARTIAL, as in C07's model (Model/Optim.v, point -> option Q): on one or two half-spaces it has no
+value and returns NaN.  numpy.argmax over the pretest values then picks the first NaN, the optimisers' numpy.nanargmax skips NaNs and
+raises ValueError on a batch without any value; a run that raises (that ValueError, or the assertion on the number of gradient starts)
+is compared with the model's error value by class, its draws up to the exception being replayed."""
 import contextlib
 import math
 import types
@@ -59,7 +64,12 @@ def opt_lit(x, f):
 
 
 def af_lit(spec):
-  return (f"(OC.mkaf {C.listlit(spec['a'], C.qlit)} {C.listlit(spec['b'], C.qlit)} {C.qlit(spec['cc'])} {C.qlit(spec['snap'])})")
+  und = C.listlit(spec.get("und") or [], lambda u: f"({C.nlit(u[0])}, {C.qlit(float(u[1]))}, {C.blit(u[2])})")
+  return (f"(OC.mkaf {C.listlit(spec['a'], C.qlit)} {C.listlit(spec['b'], C.qlit)} {C.qlit(spec['cc'])} {C.qlit(spec['snap'])} {und})")
+
+
+def eobs_lit(err):
+  return dict(AssertionError="EAssert", ValueError="EValue").get(err, "ENone")
 
 
 def ds_lit(sel, us):
@@ -149,6 +159,11 @@ def gen_row(rng, box, outside=0.0):
 # ------------------------------------------------------------------------------------------ scripted acquisition function
 
 
+def af_undefined(spec, p):
+  """the acquisition function has no value (the harness returns NaN) on the half-spaces und = [[k, t, above], ...]: x_k > t / x_k < t"""
+  return any((float(p[k]) > t) if above else (float(p[k]) < t) for k, t, above in spec.get("und") or [])
+
+
 def af_exact(spec, p, nlies=0, lw=None):
   s = spec["snap"]
   y = [Fr(math.floor(Fr(float(c)) * s), s) if s else Fr(float(c)) for c in p]
@@ -174,6 +189,9 @@ def make_af(L, spec, dim, best_obs, lw=None):
       out = []
       for p in pts:
         v, _ = af_exact(spec, p, self.nlies, lw)
+        if af_undefined(spec, p):
+          out.append(float("nan"))
+          continue
         if Fr(float(v)) != v:
           REC["inexact"] = True
         out.append(float(v))
@@ -193,8 +211,15 @@ def make_af(L, spec, dim, best_obs, lw=None):
   return ScriptedAF()
 
 
-def gen_af(rng, dim):
-  return dict(a=[rng.randint(-3, 1) for _ in range(dim)], b=[rng.randint(-4, 4) for _ in range(dim)], cc=rng.randint(-1, 1), snap=8)
+def gen_af(rng, dim, box=None):
+  spec = dict(a=[rng.randint(-3, 1) for _ in range(dim)], b=[rng.randint(-4, 4) for _ in range(dim)], cc=rng.randint(-1, 1), snap=8, und=[])
+  if box is not None and rng.random() < 0.55:   # undefined (NaN) on one or two half-spaces cutting through (or just touching) the box
+    for _ in range(rng.choice([1, 1, 2])):
+      k = rng.randrange(dim)
+      lo, hi = box[k]
+      t = rng.choice([lo, hi, dy_in(rng, lo, hi, 8), dy_in(rng, lo, hi, 8)])
+      spec["und"].append([k, float(t), rng.random() < 0.5])
+  return spec
 
 
 # ------------------------------------------------------------------------------------------ scripting numpy.random and the domain
@@ -324,6 +349,27 @@ def split_calls(p, n_calls, fixed, rins, joint, sel, us2, zs, choice, pool):
   return out
 
 
+def partial_calls(p, n_calls, done, pool):
+  """Oracle records when a call raised: `done` calls completed (full logs), the next one drew what is left in the logs (padded with
+  empty entries up to the lengths the optimisers check up front: the model stops at the same place before reading them), the calls
+  after it are never reached."""
+  E, upd = p["es_maxiter"], max(p["gd_maxiter"] - 1, 0)
+  per_r, per_j = E + 3 + upd, upd + 1
+  full = split_calls(p, done, None, REC["rins"][:done * per_r], REC["joint"][:done * per_j], REC["sel"][:done * E], REC["us2"][:done * E],
+                     REC["zs"][:done], REC["choice"][:done], pool) if done else []
+  if full is None:
+    return None
+  sel, us2 = REC["sel"][done * E:], REC["us2"][done * E:]
+  r, j = REC["rins"][done * per_r:], REC["joint"][done * per_j:]
+  ups = []
+  for i, nxt in enumerate(r[E + 3:]):
+    ups.append([[Fr(float(a)) - Fr(float(b)) for a, b in zip(rn, rp)] for rn, rp in zip(nxt, j[i])])
+  last = dict(pool=pool, sel=(sel + [[]] * E)[:E], us=(us2 + [[]] * E)[:E], zs=REC["zs"][done] if len(REC["zs"]) > done else [], fallback=[],
+              choice=REC["choice"][done] if len(REC["choice"]) > done else [], ups=(ups + [[]] * upd)[:upd])
+  blank = dict(pool=pool, sel=[[]] * E, us=[[]] * E, zs=[], fallback=[], choice=[], ups=[[]] * upd)
+  return full + [last] + [blank] * (n_calls - done - 1)
+
+
 # ------------------------------------------------------------------------------------------ cases
 
 
@@ -412,7 +458,7 @@ def vec_case(rng, whole_loop):
   dom_obj, dlit, fixed, box = search_domain(L, rng, dom, rng.random() < 0.35)
   dim = len(box)
   p, nrs = gen_vpar(rng, dim)
-  spec = gen_af(rng, dim)
+  spec = gen_af(rng, dim, box)
   lw = [rng.randint(-2, 2) for _ in range(dim)]
   best_obs = gen_row(rng, box, 0.2)
   pool = [gen_row(rng, box, 0.2) for _ in range(rng.randint(1, 4))]
@@ -432,30 +478,28 @@ def vec_case(rng, whole_loop):
                                 maxiter=p["gd_maxiter"])
         pretest_arr = numpy.array([pool[i % len(pool)] for i in range(npre)], dtype=float)
         out = numpy.asarray(L.AFO.vectorized_acquisition_optimization(es, gd, pretest_arr), dtype=float).tolist()
-    except AssertionError:
-      out = None
+    except (AssertionError, ValueError) as e:
+      # AssertionError: len(gd_starting_points) <= num_multistarts; ValueError: numpy.nanargmax on a batch without any defined value
+      out, err = None, type(e).__name__
   if REC["inexact"] or REC["restrict_draws"]:
     return None
   pretest = [pool[i % len(pool)] for i in range(npre)]
   if out is None:
-    # the assertion len(gd_starting_points) <= num_multistarts failed in the first call: its draws up to there are logged
-    upd = 0
-    ls = [dict(pool=pool, sel=REC["sel"][:p["es_maxiter"]], us=REC["us2"][:p["es_maxiter"]], zs=REC["zs"][0] if REC["zs"] else [],
-               fallback=[], choice=REC["choice"][0] if REC["choice"] else [], ups=[])]
-    if len(REC["zs"]) != 1 or len(REC["choice"]) != 1 or 2 * nrs <= p["gd_n"]:
+    ls = partial_calls(p, n, len(REC["lies"]), pool)     # the calls completed before the one that raised, then what that one drew
+    if ls is None:
       return None
-    ls = ls + [ls[0]] * (n - 1)
   else:
+    err = None
     ls = split_calls(p, n, fixed, REC["rins"], REC["joint"], REC["sel"], REC["us2"], REC["zs"], REC["choice"], pool)
     if ls is None:
       return None
-  meta = dict(kind="cl" if whole_loop else "vec", dom=dom, fixed=fixed, p=p, n=n, out=out, raised=out is None)
+  meta = dict(kind="cl" if whole_loop else "vec", dom=dom, fixed=fixed, p=p, n=n, out=out, raised=err, und=bool(spec["und"]))
   if whole_loop:
     term = (f"KCl {dlit} {fixed_lit(fixed)} {af_lit(spec)} {C.listlit(lw, C.qlit)} {row_lit(best_obs)} {vpar_lit(p)} {rows_lit(pretest)} "
-            f"{C.nlit(n)} {C.listlit([vorc_lit(l) for l in ls])} {opt_lit(out, rows_lit)}")
+            f"{C.nlit(n)} {C.listlit([vorc_lit(l) for l in ls])} {opt_lit(out, rows_lit)} {eobs_lit(err)}")
   else:
     term = (f"KVec {dlit} {fixed_lit(fixed)} {af_lit(spec)} {row_lit(best_obs)} {vpar_lit(p)} {rows_lit(pretest)} {vorc_lit(ls[0])} "
-            f"{opt_lit(out, row_lit)}")
+            f"{opt_lit(out, row_lit)} {eobs_lit(err)}")
   return term, meta
 
 
@@ -474,7 +518,7 @@ def spec_case(rng, seed):
   p["gd_n"] = max(p["gd_n"], 2 * nrs)
   p["gd_maxiter"] = rng.randint(2, 6)
   p["es_maxiter"] = rng.randint(1, 5)
-  spec = gen_af(rng, dim)
+  spec = gen_af(rng, dim, box if rng.random() < 0.5 else None)
   spec["snap"] = 0
   af = make_af(L, spec, dim, gen_row(rng, box, 0.3), [rng.randint(-2, 2) for _ in range(dim)])
   n = rng.randint(1, 3)
@@ -484,6 +528,8 @@ def spec_case(rng, seed):
   try:
     with patched_constants(L, p, nrs, rng.randint(2, 6)):
       pts, _ = L.AFO.constant_liar_acquisition_function_optimization(dom_obj, af, n)
+  except ValueError:     # a batch without any defined acquisition value: nothing is returned, nothing to decide
+    return None
   finally:
     numpy.random.set_state(state)
   out = numpy.asarray(pts, dtype=float).tolist()
@@ -529,7 +575,7 @@ def qei_case(rng):
   dim = len(box)
   n_es, maxiter = rng.randint(2, 5), rng.randint(0, 4)
   F, CR = rng.choice([0.25, 0.5, 0.75, 1.0]), rng.choice([0.25, 0.5, 0.75, 1.0])
-  spec = gen_af(rng, dim)
+  spec = gen_af(rng, dim, box)
   pool = [gen_row(rng, box, 0.2) for _ in range(rng.randint(1, 4))]
   af = make_af(L, spec, dim, gen_row(rng, box))
 
@@ -546,15 +592,20 @@ def qei_case(rng):
   reset()
   try:
     with scripted(L, rng, pool, dom_obj):
-      pt, _ = AFO.qei_acquisition_function_optimization(dom_obj, af)
+      try:
+        pt, _ = AFO.qei_acquisition_function_optimization(dom_obj, af)
+        err = None
+      except ValueError:            # numpy.nanargmax on a batch without any defined value
+        pt, err = None, "ValueError"
   finally:
     AFO.VECTORIZED_NEXT_POINTS_QEI_OPTIMIZER_INFO, AFO.VECTORIZED_NEXT_POINTS_QEI_FIXED_MAXITER, L.VO.DEOptimizer.optimizer_parameters_type = saved
   if REC["inexact"] or REC["restrict_draws"]:
     return None
-  out = numpy.reshape(numpy.asarray(pt, dtype=float), (1, dim)).tolist()
+  out = None if pt is None else numpy.reshape(numpy.asarray(pt, dtype=float), (1, dim)).tolist()
+  sel, us2 = (REC["sel"] + [[]] * maxiter)[:maxiter], (REC["us2"] + [[]] * maxiter)[:maxiter]
   term = (f"KQei {dlit} {af_lit(spec)} (OP.mkde {C.nlit(n_es)} {C.nlit(dim)} true {C.qlit(F)} {C.qlit(CR)}) {C.nlit(maxiter)} {rows_lit(pool)} "
-          f"{ds_lit(REC['sel'], REC['us2'])} (Some {rows_lit(out)})")
-  return term, dict(kind="qei", dom=dom, n_es=n_es, maxiter=maxiter, out=out)
+          f"{ds_lit(sel, us2)} {opt_lit(out, rows_lit)} {eobs_lit(err)}")
+  return term, dict(kind="qei", dom=dom, n_es=n_es, maxiter=maxiter, out=out, raised=err, und=bool(spec["und"]))
 
 
 def nearorc_lit(o):
@@ -642,7 +693,7 @@ def run(ctx):
   terms, metas, crashed = compose_cases(ctx)
   dist = {}
   for m in metas:
-    k = "compose:" + m["kind"] + (":raised" if m.get("raised") else "")
+    k = "compose:" + m["kind"] + (":" + str(m["raised"]) if m.get("raised") else "") + (":nan" if m.get("und") else "")
     dist[k] = dist.get(k, 0) + 1
   bad = C.run_cases("C01compose", HEADER, "ccase", "ccheck", terms)
   dis = [dict(what=f"C01 glue correspondence case {i} ({metas[i]['kind']}): implementation output differs from Model.Compose01 or fails its "
